@@ -33,6 +33,12 @@ class CPPManifest {
 public:
   typedef std::unordered_set<const CPPManifest *> Ignores;
 
+  // Written in front of a macro name, within text that is being expanded, once
+  // the name has been found while its macro was being expanded: from then on
+  // that occurrence of the name is never expanded again, wherever the text
+  // ends up.  It is dropped when the name is finally read as a token.
+  static const char no_expand_mark = '\001';
+
   CPPManifest(const CPPPreprocessor &parser, const std::string &args, const cppyyltype &loc);
   CPPManifest(const CPPPreprocessor &parser, const std::string &macro, const std::string &definition);
   ~CPPManifest();
